@@ -99,8 +99,15 @@ def extrema_rules(ctx, rid, fn, spin):
     ctx.inst(rid, fn, lp, ok_iter, "iterates every term of the model" if ok_iter else
              "term loop does not iterate %s.items(): terms are skipped" % arg)
     rets = [n for n in g.stmts() if isinstance(n, ast.Return)]
-    if len(rets) != 1 or not isinstance(rets[0].value, ast.Tuple) or len(rets[0].value.elts) != 2:
+    good = [r for r in rets if isinstance(r.value, ast.Tuple) and len(r.value.elts) == 2 and g.reaches(lp, r)]
+    for r in rets:
+        if r not in good:
+            ctx.inst(rid, fn, r, False,
+                     "`%s` returns something other than the pair accumulated over the current terms (a stored / cached "
+                     "result goes stale when the model is edited)" % src(r)[:60])
+    if not good:
         raise AnalysisError("%s: return (lo, hi) not recognised" % fn.qual)
+    rets = good[-1:]
     lo, hi = [src(e) for e in rets[0].value.elts]
     # initial values 0
     for nm in (lo, hi):
